@@ -5,5 +5,5 @@ VERIF_DIR="$(cd "$(dirname "${BASH_SOURCE[0]}")" && pwd)"
 export CARGO_NET_OFFLINE=true
 mkdir -p "$VERIF_DIR/work" "$VERIF_DIR/evidence" "$VERIF_DIR/replays"
 cd "$VERIF_DIR/harness"
-cargo build --release --offline -p msiverif 2>&1 | tail -3
+cargo build --release --offline 2>&1 | tail -3
 echo "setup ok"
